@@ -13,7 +13,8 @@ from vlib.cosched import kit as K
 from vlib.cosched.sched import Abort
 
 SOURCES = ["queued", "adopt:outside", "adopt:threading", "adopt:other", "service",
-           "execute:outside", "execute:other", "execute:threading"]
+           "execute:outside", "execute:other", "execute:threading", "execute:early",
+           "adopt:own-loop"]
 
 
 class Scenario:
@@ -32,7 +33,7 @@ class Scenario:
         runtime = ServiceRunner(accept_delay=1)
         kit = self.kit = K.Kit(env, runtime)
         keep = env.shared.setdefault("keep", [])
-        outside = []
+        outside, early = [], []
         for index in range(params.get("blocked_threads", 0)):
             kit.submit({"id": "blocked%d" % index, "flavour": "threading",
                         "steps": [("section", 1), ("block",)]})
@@ -49,6 +50,11 @@ class Scenario:
                 op = "adopt" if kind == "adopt" else "execute"
                 if where == "outside":
                     outside.append((op, desc))
+                elif where == "early":
+                    early.append(desc)
+                elif where == "own-loop":
+                    kit.submit({"id": "carrier%d" % index, "flavour": "threading",
+                                "steps": [("sleep", 0.5), ("adopt-own-loop", desc), ("block",)]})
                 else:
                     carrier = other if where == "other" else "threading"
                     tail = ("block",) if carrier == "threading" else ("forever", 0.5)
@@ -61,6 +67,17 @@ class Scenario:
 
         for index, (op, desc) in enumerate(outside):
             env.spawn(outside_thread, "outside%d" % index, op, desc)
+
+        def early_thread(desc):
+            # does not wait for the runtime to report running: retries until accepted
+            for _attempt in range(400):
+                outcome = kit.submit(desc, "execute")
+                if outcome[0] == "returned":
+                    break
+                env.sleep(0.01)
+
+        for index, desc in enumerate(early):
+            env.spawn(early_thread, "early%d" % index, desc)
 
         def driver():
             runtime.running.wait()
